@@ -122,6 +122,7 @@ struct World {
 }
 
 const CHARS: &[char] = &[' ', 'a', 'b', 'x', '世', '🤩'];
+const CHAR_WIDTHS: &[(char, usize)] = &[(' ', 1), ('a', 1), ('b', 1), ('x', 1), ('世', 2), ('🤩', 2), ('\0', 0)];
 
 fn make_image(rows: usize, cols: usize, seed: u8) -> Image {
     let mut surf: SurfaceOwned<RGBA> = SurfaceOwned::new(Size::new(rows, cols));
@@ -129,29 +130,89 @@ fn make_image(rows: usize, cols: usize, seed: u8) -> Image {
     Image::from(surf)
 }
 
+/// one face of the alphabet, as raw data
+#[derive(Debug, Clone, Copy)]
+struct FaceSpec {
+    fg: Option<(u8, u8, u8)>,
+    bg: Option<(u8, u8, u8)>,
+    underline: bool,
+    bold: bool,
+    reverse: bool,
+    strike: bool,
+}
+/// what can be told apart in a face: colours and the names of its attributes
+type FaceKey = (Option<[u8; 4]>, Option<[u8; 4]>, Vec<&'static str>);
+const FACES: &[FaceSpec] = &[
+    FaceSpec { fg: None, bg: None, underline: false, bold: false, reverse: false, strike: false },
+    FaceSpec { fg: Some((0xfb, 0x49, 0x34)), bg: Some((0x3c, 0x38, 0x36)), underline: false, bold: false, reverse: false, strike: false },
+    // the value the pinned code used as "impossible" initial face
+    FaceSpec { fg: None, bg: Some((1, 2, 3)), underline: false, bold: false, reverse: false, strike: false },
+    // attributes that are visible on a blank cell: erasing is not the same as printing spaces
+    FaceSpec { fg: None, bg: Some((0x3c, 0x38, 0x36)), underline: true, bold: false, reverse: false, strike: false },
+    // differs from face 1 in its attributes ONLY
+    FaceSpec { fg: Some((0xfb, 0x49, 0x34)), bg: Some((0x3c, 0x38, 0x36)), underline: false, bold: true, reverse: true, strike: false },
+];
+impl FaceSpec {
+    fn build(&self) -> Face {
+        let rgba = |c: (u8, u8, u8)| RGBA::new(c.0, c.1, c.2, 255);
+        let mut attrs = FaceAttrs::EMPTY;
+        for (on, flag) in [(self.underline, FaceAttrs::UNDERLINE), (self.bold, FaceAttrs::BOLD), (self.reverse, FaceAttrs::REVERSE), (self.strike, FaceAttrs::STRIKE)] {
+            if on {
+                attrs = attrs.insert(flag);
+            }
+        }
+        Face { fg: self.fg.map(rgba), bg: self.bg.map(rgba), attrs }
+    }
+    fn key(&self) -> FaceKey {
+        let mut names = Vec::new();
+        for (on, n) in [(self.underline, "underline"), (self.bold, "bold"), (self.reverse, "reverse"), (self.strike, "strike")] {
+            if on {
+                names.push(n);
+            }
+        }
+        names.sort();
+        (self.fg.map(|c| [c.0, c.1, c.2, 255]), self.bg.map(|c| [c.0, c.1, c.2, 255]), names)
+    }
+}
+/// the same description read from a `Face` value (colour channels and attribute names)
+fn face_key(f: &Face) -> FaceKey {
+    let ch = |c: RGBA| [c.red(), c.green(), c.blue(), c.alpha()];
+    let mut names: Vec<&'static str> = f.attrs.names().collect();
+    names.sort();
+    (f.fg.map(ch), f.bg.map(ch), names)
+}
+
+/// pixels of the visible part of an image, read from the raw storage through the public `Shape` fields
+/// (not through `Surface::iter` / `get`)
+fn pixels(img: &Image) -> Vec<RGBA> {
+    let sh = img.shape();
+    let data = img.data();
+    let mut v = Vec::with_capacity(sh.height * sh.width);
+    for r in 0..sh.height {
+        for c in 0..sh.width {
+            v.push(data[sh.start + r * sh.row_stride + c * sh.col_stride]);
+        }
+    }
+    v
+}
+
 /// `Image: PartialEq` is pointer identity; a terminal identifies an image by its content
 fn same_image(a: &Image, b: &Image) -> bool {
-    a.size() == b.size() && a.iter().eq(b.iter())
+    let (sa, sb) = (a.shape(), b.shape());
+    (sa.height, sa.width) == (sb.height, sb.width) && pixels(a) == pixels(b)
 }
 
 impl World {
     fn new() -> World {
-        let faces: Vec<Face> = vec![
-            Face::default(),
-            "fg=#fb4934,bg=#3c3836".parse().unwrap(),
-            // the value the pinned code used as "impossible" initial face
-            Face::default().with_bg(Some(RGBA::new(1, 2, 3, 255))),
-            // attributes that are visible on a blank cell: erasing is not the same as printing spaces
-            Face::new(None, Some(RGBA::new(60, 56, 54, 255)), FaceAttrs::UNDERLINE),
-            Face::new(Some(RGBA::new(250, 189, 47, 255)), None, FaceAttrs::REVERSE.insert(FaceAttrs::BOLD)),
-        ];
-        // as the terminal sees it: does a printed space in this face look like an erased cell
-        let plain: Vec<bool> = faces
-            .iter()
-            .map(|f| !(f.attrs.contains(FaceAttrs::REVERSE) || f.attrs.contains(FaceAttrs::STRIKE) || f.attrs.names().any(|n| n.starts_with("underline"))))
-            .collect();
-        let tsize = TerminalSize { cells: Size::new(4, 4), pixels: Size::new(4 * PPC_H, 4 * PPC_W) };
-        let ppc = tsize.pixels_per_cell();
+        // the faces of the alphabet as RAW data; `plain` (no attribute that shows on a blank cell) and the
+        // identification of faces in the renderer's commands are computed from this table, not with
+        // `Face` / `FaceAttrs` comparison or accessors (code under test)
+        let faces: Vec<Face> = FACES.iter().map(|sp| sp.build()).collect();
+        let plain: Vec<bool> = FACES.iter().map(|sp| !(sp.underline || sp.reverse || sp.strike)).collect();
+        for (f, sp) in faces.iter().zip(FACES) {
+            // cross-check of the constructors / accessors used to build the value
+            assert_eq!(face_key(f), sp.key(), "Face built from {sp:?} reads back differently");
+        }
         // two images of different cell sizes: 1x2 and 2x3 cells
         let mut images = vec![make_image(3, 15, 10), make_image(25, 21, 200)];
         // crops of ONE backing picture (they share the allocation): two of the same size (1x2 cells),
@@ -161,8 +222,10 @@ impl World {
         let crop_b = pic.crop(20..40usize, 10..30usize);
         let crop_c = pic.crop(0..40usize, 0..20usize);
         let copy_a = {
-            let mut surf: SurfaceOwned<RGBA> = SurfaceOwned::new(crop_a.size());
-            surf.fill_with(|pos, _| *crop_a.get(pos).unwrap());
+            let sh = crop_a.shape();
+            let px = pixels(&crop_a);
+            let mut surf: SurfaceOwned<RGBA> = SurfaceOwned::new(Size { height: sh.height, width: sh.width });
+            surf.fill_with(|pos, _| px[pos.row * sh.width + pos.col]);
             Image::from(surf)
         };
         images.extend([crop_a, crop_b, crop_c, copy_a]);
@@ -187,15 +250,17 @@ impl World {
         // pixels of a cell`.  It is obtained on a 1 x 1 cell terminal of PPC_H x PPC_W pixels, where
         // "cells in pixels" is this product under any reading; its cell size is the declared one (raw).
         let exact = TerminalSize { cells: Size::new(1, 1), pixels: Size::new(PPC_H, PPC_W) };
-        let mut cell_sizes: Vec<(usize, usize)> = images
-            .iter()
-            .map(|i| (i.height().div_ceil(PPC_H), i.width().div_ceil(PPC_W)))
-            .collect();
+        // pixel dimensions as they were requested above (raw), not read back through accessors
+        let raw_px: [(usize, usize); 6] = [(3, 15), (25, 21), (20, 20), (20, 20), (40, 20), (20, 20)];
+        let mut cell_sizes: Vec<(usize, usize)> = raw_px.iter().map(|(h, w)| (h.div_ceil(PPC_H), w.div_ceil(PPC_W))).collect();
+        for (img, px) in images.iter().zip(raw_px) {
+            assert_eq!((img.shape().height, img.shape().width), px);
+        }
         let mut raster = Vec::new();
         for (g, glyph) in glyphs.iter().enumerate() {
             for fi in glyph_faces(g) {
                 let img = glyph.rasterize(faces[fi], exact);
-                assert_eq!((img.height(), img.width()), (glyph_specs[g].1.0 * PPC_H, glyph_specs[g].1.1 * PPC_W));
+                assert_eq!((img.shape().height, img.shape().width), (glyph_specs[g].1.0 * PPC_H, glyph_specs[g].1.1 * PPC_W));
                 let id = match images.iter().position(|i| same_image(i, &img)) {
                     Some(id) => id,
                     None => {
@@ -210,16 +275,17 @@ impl World {
         // identification of the renderer's rasterisations by their pixels must be unambiguous
         for (a, x) in raster.iter().enumerate() {
             for y in &raster[..a] {
-                assert!(x.2 != y.2, "two glyph pictures of the alphabet coincide: {x:?} {y:?}");
+                assert!(x.0 != y.0 || x.2 != y.2, "two glyph pictures of one face coincide: {x:?} {y:?}");
             }
         }
         let sizes = cell_sizes;
-        let _ = (tsize, ppc);
-        // widths as the implementation sees them (`Cell::size` = unicode-width)
+        // display widths: a table written here (East Asian Width W for the two wide characters, NUL has
+        // none); cross-checked against what the crate computes through `Cell::size` (unicode-width)
         let ctx = ViewContext::dummy();
         let mut widths = BTreeMap::new();
-        for ch in CHARS.iter().cloned().chain(['\0']) {
-            widths.insert(ch as u32, Cell::new_char(Face::default(), ch).size(&ctx).width);
+        for (ch, wd) in CHAR_WIDTHS {
+            assert_eq!(Cell::new_char(faces[0], *ch).size(&ctx).width, *wd, "width of {ch:?}");
+            widths.insert(*ch as u32, *wd);
         }
         let mut alpha = Vec::new();
         let mut cells = Vec::new();
@@ -277,8 +343,13 @@ impl World {
     fn width(&self, ch: u32) -> usize {
         *self.widths.get(&ch).unwrap_or(&1)
     }
+    /// identifier of a face in a command: by colours and attribute names against the raw table; a face
+    /// that `Face: PartialEq` judges differently than this description gets no identifier (98)
     fn face_id(&self, f: &Face) -> usize {
-        self.faces.iter().position(|x| x == f).unwrap_or(99)
+        let key = face_key(f);
+        let id = FACES.iter().position(|sp| sp.key() == key);
+        let by_eq = self.faces.iter().position(|x| x == f);
+        if id == by_eq { id.unwrap_or(99) } else { 98 }
     }
     /// Identifier of an image the renderer hands out.  The model's identifiers stand for the images the
     /// application created (allocation + view), so an image of the alphabet is recognised by its storage
@@ -434,7 +505,13 @@ fn draw(world: &World, hist: &Hist, view: &mut surf_n_term::TerminalSurface<'_>,
         for c in 0..hist.w {
             let s = surf[r * hist.w + c] as usize;
             if s != 0 {
-                view.set(Position::new(r, c), world.cells[s].clone());
+                // the application writes its cells through either accessor
+                let pos = Position { row: r, col: c };
+                if (r + c) % 2 == 0 {
+                    view.set(pos, world.cells[s].clone());
+                } else {
+                    *view.get_mut(pos).unwrap() = world.cells[s].clone();
+                }
             }
         }
     }
@@ -1653,8 +1730,9 @@ impl Ctx<'_> {
 fn main() {
     let cfg = Cfg::from_env();
     let out = cfg.out();
-    verif_harness::silence_panics();
+    // start-up cross-checks of the alphabet panic with their message
     let world = World::new();
+    verif_harness::silence_panics();
     let mut ctx = Ctx {
         world: &world,
         out,
